@@ -240,7 +240,7 @@ pub fn check_text(ctx: &mut Ctx, text: &str) {
 
 pub fn run(ctx: &mut Ctx) {
     exhaustive(ctx);
-    let n = ctx.budget(150_000, 6_000_000);
+    let n = ctx.budget(1_500_000, 20_000_000);
     let mut src = Sources::standard(n);
     src.three_man = n / 20;
     // collect some valid FEN texts for mutation while streaming
@@ -259,7 +259,7 @@ pub fn run(ctx: &mut Ctx) {
     for t in gentext::FEN_VARIANTS {
         check_text(ctx, t);
     }
-    let m = ctx.budget(200_000, 8_000_000);
+    let m = ctx.budget(2_000_000, 25_000_000);
     for _ in 0..m {
         if texts.is_empty() {
             break;
